@@ -14,24 +14,27 @@ inductive File where
   | unreadable                                                  -- empty file, bad quoting, … : read_tsv raises
 deriving Repr, DecidableEq
 
+/-- a metadata file name: stem and extension (`true` = `.tsv`, `false` = `.csv`) -/
+abbrev FName := String × Bool
+
 structure Disk where
   clusters : List Nat                       -- spike_clusters.npy
-  files : List (String × File)              -- metadata files by stem; a later write replaces the file
+  files : List (FName × File)               -- metadata files by name; a later write replaces the file
   subsetSaved : Bool                        -- `_phy_spikes_subset.*` present
 deriving Repr, DecidableEq
 
 inductive Op where
   | saveClusters (sc : List Nat)
   | saveMeta (field : String) (m : List (Nat × Option Cell))      -- dict {cluster_id: value or None}
-  | writeFile (stem : String) (f : File)                          -- a foreign TSV/CSV file
+  | writeFile (name : FName) (f : File)                           -- a foreign TSV/CSV file
   | saveSubset
   | close
   | reload
 deriving Repr
 
 /-- replace or add a file -/
-def putFile (files : List (String × File)) (stem : String) (f : File) : List (String × File) :=
-  (files.filter fun p => p.1 != stem) ++ [(stem, f)]
+def putFile (files : List (FName × File)) (name : FName) (f : File) : List (FName × File) :=
+  (files.filter fun p => p.1 != name) ++ [(name, f)]
 
 /-- insert into an id-sorted association list (`sorted(data)` in `_write_tsv_simple`) -/
 def insertById (x : Nat × Cell) : List (Nat × Cell) → List (Nat × Cell)
@@ -52,8 +55,8 @@ def simpleTable (render : Cell → String) (field : String) (data : List (Nat ×
 def step (render : Cell → String) (d : Disk) : Op → Disk
   | .saveClusters sc => { d with clusters := sc }
   | .saveMeta field m =>
-    { d with files := putFile d.files ("cluster_" ++ field) (simpleTable render field (cleanMeta m)) }
-  | .writeFile stem f => { d with files := putFile d.files stem f }
+    { d with files := putFile d.files ("cluster_" ++ field, true) (simpleTable render field (cleanMeta m)) }
+  | .writeFile name f => { d with files := putFile d.files name f }
   | .saveSubset => { d with subsetSaved := true }
   | .close => d
   | .reload => d
@@ -76,12 +79,13 @@ def loadMetadata (parse : String → Cell) (f : File) : Option (List (String × 
           let upd := (old.filter fun q => q.1 != parse cid) ++ [(parse cid, parse p.2)]
           (out2.filter fun q => q.1 != p.1) ++ [(p.1, upd)]) out) [])
 
-/-- `_load_metadata()`: every CSV/TSV file except `cluster_info`, unreadable ones skipped;
+/-- `_load_metadata()`: all `*.csv` files first, then all `*.tsv` files (so that the TSV files phy
+writes win over legacy CSV files), except `cluster_info`; unreadable ones skipped;
 `metadata[field] = data` per file (a later file replaces the whole field) -/
-def metadataView (parse : String → Cell) (files : List (String × File)) :
+def metadataView (parse : String → Cell) (files : List (FName × File)) :
     List (String × List (Cell × Cell)) :=
-  files.foldl (fun acc p =>
-    if p.1 == "cluster_info" then acc else
+  ((files.filter fun p => !p.1.2) ++ (files.filter fun p => p.1.2)).foldl (fun acc p =>
+    if p.1.1 == "cluster_info" then acc else
     match loadMetadata parse p.2 with
     | none => acc
     | some fields => fields.foldl (fun a fd => (a.filter fun q => q.1 != fd.1) ++ [fd]) acc) []
